@@ -709,3 +709,50 @@ Proof.
   intros n el b i' H. destruct n as [|n]; [discriminate H|].
   destruct el as [|a [|c r]]; cbn in H; inversion H; reflexivity.
 Qed.
+
+(* ------------------------------------------------------------ where ForEach leaves the iterator *)
+Definition drop_it {X} (r : option (list Z * option Z * X)) : option (list Z * option Z) :=
+  match r with Some (vs, o, _) => Some (vs, o) | None => None end.
+
+Lemma foreach_loop_st_proj f : forall n k i, drop_it (foreach_loop_st n f k i) = foreach_loop n f k i.
+Proof.
+  induction n as [|n IH]; intros k i; [reflexivity|].
+  cbn [foreach_loop_st foreach_loop]. destruct (f k (value i)) as [err|]; [reflexivity|].
+  destruct (next n i) as [[[|] i']|]; [|reflexivity|reflexivity].
+  rewrite <- IH. destruct (foreach_loop_st n f (S k) i') as [[[vs o] j]|]; reflexivity.
+Qed.
+
+Lemma run_foreach_st_proj f t n : drop_it (run_foreach_st n f t) = run_foreach n f t.
+Proof.
+  unfold run_foreach_st, run_foreach, foreach. destruct (build n 0 t) as [i|]; [|reflexivity].
+  destruct (is_nil i); [reflexivity|apply foreach_loop_st_proj].
+Qed.
+
+Lemma foreach_loop_st_stops f : forall n k i vs err j,
+  foreach_loop_st n f k i = Some (vs, Some err, j) ->
+  vs <> [] /\ value j = last vs 0 /\ f (k + (length vs - 1))%nat (value j) = Some err.
+Proof.
+  induction n as [|n IH]; intros k i vs err j H; [discriminate|].
+  cbn [foreach_loop_st] in H. destruct (f k (value i)) as [e0|] eqn:Hf.
+  - inversion H; subst. split; [discriminate|]. split; [reflexivity|]. cbn. rewrite Nat.add_0_r. exact Hf.
+  - destruct (next n i) as [[[|] i']|]; [|discriminate|discriminate].
+    destruct (foreach_loop_st n f (S k) i') as [[[vs' o] j']|] eqn:Hr; [|discriminate].
+    inversion H; subst. destruct (IH _ _ _ _ _ Hr) as (Hne & Hl & Hf').
+    split; [discriminate|]. split.
+    + destruct vs' as [|a r]; [contradiction|]. exact Hl.
+    + destruct vs' as [|a r]; [contradiction|]. cbn [length] in *.
+      replace (k + (S (S (length r)) - 1))%nat with (S k + (S (length r) - 1))%nat by lia. exact Hf'.
+Qed.
+
+(* after an error the iterator is the one whose element failed: it shows the last element visited, the callback's answer
+   on it is the error returned *)
+Theorem foreach_stops_at_error : forall (t : e) (f : nat -> Z -> option Z) n vs err j,
+  run_foreach_st n f t = Some (vs, Some err, j) ->
+  run_foreach n f t = Some (vs, Some err) /\
+  vs <> [] /\ value j = last vs 0 /\ f (length vs - 1)%nat (value j) = Some err.
+Proof.
+  intros t f n vs err j H. split.
+  - rewrite <- run_foreach_st_proj, H. reflexivity.
+  - unfold run_foreach_st in H. destruct (build n 0 t) as [i|]; [|discriminate].
+    destruct (is_nil i); [discriminate|]. exact (foreach_loop_st_stops f _ _ _ _ _ _ H).
+Qed.
